@@ -16,13 +16,13 @@ PROPERTY = "C12"
 LEVEL = "exploration"
 RULE = (
     "one case = a tape-drawn sequence over: build a tower (depth 0-5) over {partial, wraps, bound method, classmethod, staticmethod}; a generated nesting of functions/classes (depth 1-4) addressed by "
-    "name path; two functions compiled from the same source (equal, distinct code objects); customize() with all 8 flag combinations x {no elaborate, elaborate->None, elaborate->replacement} x {direct, decorator}; "
+    "name path; two functions compiled from the same source (equal, distinct code objects); customize() with all 8 flag combinations x {no elaborate, elaborate->None, elaborate->replacement, elaborate->PRUNE / () / []} x {direct, decorator}; "
     "re-registration (latest wins); every target is called and extract_since() from a callee checks hide / hide_line / pruned callee / replacement on exactly the frames running the registered code; "
     "IdentityDict vs a list-of-pairs model under 30 random get/set/del/pop/setdefault/popitem/iter/len/eq operations with equal-but-distinct keys. distinct = (tower, flags, elaborate kind, form) and dict-op sequences"
 )
 ASSUMPTIONS = ["the code that 'executes when the target is called' is recorded by the base function itself (sys._getframe().f_code)", "nested names are unique within their scope (siblings whose names extend or contain the wanted name do occur)"]
 REAL_VS_STUB = {"real": ["get_code, code_dispatch, IdentityDict, customize, elaborate_frame, extract_since"], "stub": ["generated towers / nestings", "model map id(code) -> latest hook", "list-of-pairs dict model"]}
-RARE_PROBES = ["hide_line_checked", "prune_checked", "replacement_checked", "equal_distinct_code", "decorator_form", "reregistered"]
+RARE_PROBES = ["hide_line_checked", "prune_checked", "replacement_checked", "empty_replacement_checked", "equal_distinct_code", "decorator_form", "reregistered"]
 LEGS = [
     {"name": "reg312", "python": "3.12", "quick": 6000, "thorough": 150000, "quick_s": 40, "thorough_s": 400},
     {"name": "reg39", "python": "3.9", "quick": 2500, "thorough": 60000, "quick_s": 30, "thorough_s": 300},
@@ -353,7 +353,7 @@ def run(ctx):
     hide = t.choose(2) == 1
     hide_line = t.choose(2) == 1
     prune = t.choose(2) == 1
-    ekind = t.choose(3)  # 0 none, 1 returns None, 2 returns replacement
+    ekind = t.choose(6)  # 0 none, 1 returns None, 2 returns replacement, 3 returns PRUNE, 4 returns (), 5 returns []
     form = t.choose(2)  # 0 direct, 1 decorator
     replacement_gen = None
 
@@ -372,7 +372,11 @@ def run(ctx):
         elab_calls.append(frame.pyframe.f_code)
         return replacement_gen
 
-    elaborate = (None, elab_none, elab_repl)[ekind]
+    def elab_empty(frame, next_inner):
+        elab_calls.append(frame.pyframe.f_code)
+        return (PRUNE, (), [])[ekind - 3]
+
+    elaborate = (None, elab_none, elab_repl, elab_empty, elab_empty, elab_empty)[ekind]
     kwargs = {"hide": hide, "hide_line": hide_line, "prune": prune, "elaborate": elaborate}
     # sometimes register something else first: the latest registration must win
     if t.choose(4) == 1:
@@ -388,7 +392,7 @@ def run(ctx):
         r = dec(tower)
         if r is not tower:
             raise Violation("c12_customize_return", "@customize(...) did not return the decorated function unchanged", {})
-    flags = {"hide": hide, "hide_line": hide_line, "prune": prune, "elaborate": ("none", "returns_none", "replacement")[ekind], "form": ("direct", "decorator")[form], "tower": desc}
+    flags = {"hide": hide, "hide_line": hide_line, "prune": prune, "elaborate": ("none", "returns_none", "replacement", "returns_PRUNE", "returns_empty_tuple", "returns_empty_list")[ekind], "form": ("direct", "decorator")[form], "tower": desc}
     ctx.case = dict(flags)
     ctx.cover(repr(("cust", tuple(desc), hide, hide_line, prune, ekind, form)))
 
@@ -440,6 +444,11 @@ def run(ctx):
         ctx.stat("replacement_checked")
         if rest != ["repl_target"]:
             raise Violation("c12_option_elaborate", "elaborate returned a replacement but the rest of the stack is %r" % (rest,), flags)
+    elif ekind >= 3:
+        # an empty replacement IS a replacement: the frame's callees are removed whatever the prune flag says
+        ctx.stat("empty_replacement_checked")
+        if rest:
+            raise Violation("c12_option_elaborate", "elaborate returned the empty replacement %s (prune=%r, %s form) but callees are still present: %r" % (flags["elaborate"], prune, flags["form"], rest), flags)
     elif prune:
         ctx.stat("prune_checked")
         if rest:
